@@ -50,3 +50,54 @@ Print Assumptions C18_result_keys.
 Example C18_example : run_counting 7 (Every 3) = (7%Z, [(0,0); (3,3); (6,6)]%Z, false).
 Proof. vm_compute. reflexivity. Qed.
 Print Assumptions C18_example.
+
+(* ---- exact evolution ------------------------------------------------------------------------ *)
+(* Kernel contract expm_spec (laws of the matrix exponential and of operator application, not
+   statements about the code): E m stands for exp(-i H (m dt)); E 0 = 1, E (m+n) = E m * E n,
+   1 s = s, (a b) s = a (b s).  With the time step performed by the exact propagator E 1, column j
+   of the result array holds the measurement of exp(-i H (j k dt)) psi_0 (time index j*k), and the
+   final state is exp(-i H (n dt)) psi_0. *)
+From PTN Require Import Driver.RunExact.
+
+Theorem C18_exact_state_every : forall (St V Op : Type) (mul : Op -> Op -> Op) (one : Op)
+    (act : Op -> St -> St) (E : nat -> Op) (measure : St -> V),
+  E 0 = one -> (forall m n, E (m + n) = mul (E m) (E n)) ->
+  (forall s, act one s = s) -> (forall a b s, act (mul a b) s = act a (act b s)) ->
+  forall (n k : nat) (s0 : St), 1 <= k ->
+  run St V (act (E 1)) measure n (Every k) s0 =
+  {| sys := act (E n) s0;
+     cols := map (fun j => Some (measure (act (E (j * k)) s0), j * k)) (seq 0 (n / k + 1));
+     err := false |}.
+Proof. exact exact_state_every. Qed.
+Print Assumptions C18_exact_state_every.
+
+Theorem C18_exact_state_every_col : forall (St V Op : Type) (mul : Op -> Op -> Op) (one : Op)
+    (act : Op -> St -> St) (E : nat -> Op) (measure : St -> V),
+  E 0 = one -> (forall m n, E (m + n) = mul (E m) (E n)) ->
+  (forall s, act one s = s) -> (forall a b s, act (mul a b) s = act a (act b s)) ->
+  forall (n k : nat) (s0 : St) (j : nat), 1 <= k -> j <= n / k ->
+  nth_error (cols (run St V (act (E 1)) measure n (Every k) s0)) j
+  = Some (Some (measure (act (E (j * k)) s0), j * k)).
+Proof. exact exact_state_every_col. Qed.
+Print Assumptions C18_exact_state_every_col.
+
+Theorem C18_exact_state_inf : forall (St V Op : Type) (mul : Op -> Op -> Op) (one : Op)
+    (act : Op -> St -> St) (E : nat -> Op) (measure : St -> V),
+  E 0 = one -> (forall m n, E (m + n) = mul (E m) (E n)) ->
+  (forall s, act one s = s) -> (forall a b s, act (mul a b) s = act a (act b s)) ->
+  forall (n : nat) (s0 : St),
+  run St V (act (E 1)) measure n Inf s0 =
+  {| sys := act (E n) s0; cols := [Some (measure (act (E n) s0), n)]; err := false |}.
+Proof. exact exact_state_inf. Qed.
+Print Assumptions C18_exact_state_inf.
+
+(* the contract is satisfiable: Op = (Z, +, 0) acting on Z by translation, E m = 3 m *)
+Example C18_exact_contract_satisfiable :
+  let E := fun m : nat => (3 * Z.of_nat m)%Z in
+  E 0 = 0%Z /\ (forall m n, E (m + n) = (E m + E n)%Z) /\
+  (forall s : Z, (0 + s)%Z = s) /\ (forall a b s : Z, (a + b + s)%Z = (a + (b + s))%Z) /\
+  cols (run Z Z (Z.add (E 1)) (fun s => s) 7 (Every 3) 10%Z) = [Some (10%Z, 0); Some (19%Z, 3); Some (28%Z, 6)].
+Proof.
+  cbv zeta. repeat split; intros; try (rewrite ?Nat2Z.inj_add; ring).
+Qed.
+Print Assumptions C18_exact_contract_satisfiable.
